@@ -28,8 +28,10 @@ MAX_REPLAYS = 12
 
 def digest(obj):
     """Short stable digest of a JSON-able / repr-able object (not Python's salted hash)."""
+    if isinstance(obj, dict):  # harness scratch keys ('_x') never take part in a signature
+        obj = {k: v for k, v in obj.items() if not str(k).startswith("_")}
     if not isinstance(obj, (str, bytes)):
-        obj = json.dumps(obj, sort_keys=True, default=repr)
+        obj = json.dumps(jsonable(obj), sort_keys=True, default=repr)
     if isinstance(obj, str):
         obj = obj.encode()
     return hashlib.blake2b(obj, digest_size=8).hexdigest()
